@@ -96,9 +96,9 @@ Lemma opt_clean_latin1 : forall o, opt_clean o = true -> opt_latin1b o = true ->
   forall v, o = Some v -> hdr_ok v.
 Proof. intros o H1 H2 v ->. apply clean_latin1_hdr_ok; assumption. Qed.
 
-Lemma expires_hdr_ok : forall c, expires_ok c = true -> forall v, c_expires c = Some v -> hdr_ok v.
+Lemma exp_text_hdr_ok : forall c v, exp_text c = Some v -> hdr_ok v.
 Proof.
-  intros c H v E. unfold expires_ok in H. rewrite E in H. unfold hdr_ok.
+  intros c v H. apply exp_text_ok in H. unfold okstr in H. unfold hdr_ok.
   apply forallb_forall. rewrite forallb_forall in H. intros x Hx. apply H in Hx.
   apply andb_true_iff in Hx. tauto.
 Qed.
@@ -113,10 +113,10 @@ Proof. intros. apply Forall_app. split; assumption. Qed.
 
 (* an accepted call whose texts are Latin-1 yields a header flush() can send *)
 Lemma output_sendable : forall c,
-  validate c = Ok -> call_latin1 c = true -> expires_ok c = true ->
+  validate c = Ok -> call_latin1 c = true ->
   sendable c = true.
 Proof.
-  intros c Ha Hl He. unfold sendable. destruct (validate_inv c Ha) as (_ & _ & Hd & Hp & Hs & Hk).
+  intros c Ha Hl. unfold sendable. destruct (validate_inv c Ha) as (_ & _ & Hd & Hp & Hs & Hk).
   unfold call_latin1 in Hl. repeat (apply andb_true_iff in Hl as [Hl ?]).
   apply key_ok_legal, legal_key_Forall in Hk as [_ Hk].
   apply join_hdr_ok. constructor.
@@ -124,7 +124,7 @@ Proof.
     apply hdr_ok_cons; [reflexivity|apply quote_hdr_ok, Hl].
   - unfold out_attrs. repeat (apply Forall_app_intro'; [|]).
     + apply opt_kv_hdr_ok; [reflexivity|apply opt_clean_latin1; assumption].
-    + apply opt_kv_hdr_ok; [reflexivity|apply expires_hdr_ok, He].
+    + apply opt_kv_hdr_ok; [reflexivity|apply exp_text_hdr_ok].
     + destruct (c_httponly c); [constructor; [reflexivity|constructor]|constructor].
     + apply opt_kv_hdr_ok; [reflexivity|apply max_age_hdr_ok].
     + apply opt_kv_hdr_ok; [reflexivity|apply opt_clean_latin1; assumption].
@@ -298,6 +298,10 @@ Proof.
     + rewrite A. destruct (IH (res ++ [ValueErr]) j l Hi) as [I1 I2].
       rewrite I1, <- !app_assoc, B. split; [reflexivity|exact I2].
     + rewrite A. destruct (IH (res ++ [CookieErr]) j l Hi) as [I1 I2].
+      rewrite I1, <- !app_assoc, B. split; [reflexivity|exact I2].
+    + rewrite A. destruct (IH (res ++ [OSErr]) j l Hi) as [I1 I2].
+      rewrite I1, <- !app_assoc, B. split; [reflexivity|exact I2].
+    + rewrite A. destruct (IH (res ++ [OverflowErr]) j l Hi) as [I1 I2].
       rewrite I1, <- !app_assoc, B. split; [reflexivity|exact I2].
 Qed.
 
